@@ -1,6 +1,6 @@
 """C09 - kernels and correctors."""
 import ast
-from ..core import RuleResult, Finding, AnalysisError, dotted, src, norm_construct, ClassInfo
+from ..core import RuleResult, Finding, AnalysisError, dotted, src, norm_construct, ClassInfo, guarded, guarded_list
 from ..expr import inline_straight, returns_of, dump, subst
 from .. import paths
 
@@ -61,6 +61,7 @@ def _cmp(e, pname):
     return None
 
 
+@guarded
 def rule_guard(repo, tier):
     res = RuleResult('C09.GUARD', 'every kernel forward establishes input >= 0 (assert / raising branch) before computing with it', floor=7)
     for c in kernel_classes(repo):
@@ -113,6 +114,7 @@ from ..shapes import Interp, TV, IntV, NONE, TOP, sym, lit   # noqa: E402
 Bt = ('batch', 'B')
 
 
+@guarded
 def rule_kind(repo, tier):
     res = RuleResult('C09.KIND', 'correctors: every definition of the returned residual carries the last dimension d of R (a masked '
                      'store whose right-hand side has last dimension 1 is a broadcast fill: the residual lost R); the returned '
@@ -292,6 +294,7 @@ def _units(e, env, problems):
     return 'unknown'
 
 
+@guarded
 def rule_unit(repo, tier):
     res = RuleResult('C09.UNIT', 'dimensional homogeneity of the kernels: with the argument in u^2 (squared residual) and the constructor '
                      'parameters in their documented units, every sum / comparison / masked store combines equal units, transcendental '
@@ -360,6 +363,7 @@ def _sq_axis(e):
     return None
 
 
+@guarded
 def rule_sel_axis(repo, tier):
     res = RuleResult('C09.AXIS', 'the kernel argument is the squared norm over the last axis in the three places that must agree (robust loss, '
                      'FastTriggs, Triggs); the robust loss pairs kernels with residuals like the optimisers pair correctors (one for all, '
@@ -411,6 +415,7 @@ def rule_sel_axis(repo, tier):
     return res
 
 
+@guarded
 def rule_contr(repo, tier):
     res = RuleResult('C09.CONTR', 'Triggs: the rank-one Jacobian correction contracts over the residual dimension (J\' = sJ - alpha/x * R (R^T sJ)): '
                      'the term subtracted from the scaled Jacobian rows is produced by a contraction over d (einsum / matmul / sum), not by an '
